@@ -665,6 +665,44 @@ impl<T: FftNum> FftPlannerScalar<T> {
     }
 }
 
+// Verification hooks: report the plan for a length as text, without constructing the FFT
+#[cfg(feature = "verif_hooks")]
+impl<T: FftNum> FftPlannerScalar<T> {
+    /// Returns the `Debug` text of the recipe this planner designs for `len`, and the recipe's own length
+    pub fn verif_plan_report(&mut self, len: usize, _direction: FftDirection) -> (String, usize) {
+        let recipe = self.design_fft_for_len(len);
+        (format!("{:?}", recipe), recipe.len())
+    }
+}
+#[cfg(feature = "verif_hooks")]
+impl<T: FftNum> FftPlanner<T> {
+    /// Returns which planner was chosen, the text of the plan it designs for `len`, and the plan's own length
+    pub fn verif_plan_report(
+        &mut self,
+        len: usize,
+        direction: FftDirection,
+    ) -> (&'static str, String, usize) {
+        match &mut self.chosen_planner {
+            ChosenFftPlanner::Scalar(p) => {
+                let (text, plan_len) = p.verif_plan_report(len, direction);
+                ("scalar", text, plan_len)
+            }
+            #[cfg(all(target_arch = "x86_64", feature = "avx"))]
+            ChosenFftPlanner::Avx(p) => {
+                let (text, plan_len) = p.verif_plan_report(len, direction);
+                ("avx", text, plan_len)
+            }
+            #[cfg(all(target_arch = "x86_64", feature = "sse"))]
+            ChosenFftPlanner::Sse(p) => {
+                let (text, plan_len) = p.verif_plan_report(len, direction);
+                ("sse", text, plan_len)
+            }
+            #[allow(unreachable_patterns)]
+            _ => ("other", String::new(), len),
+        }
+    }
+}
+
 #[cfg(test)]
 mod unit_tests {
     use super::*;
